@@ -21,7 +21,7 @@ PKGS = ["./cmd/instance"]
 DEV_PAR = {"AliasDefaults": {"race"}, "LazyUnsync": {"race", "history"}, "NoStepMutex": {"race", "initonce"},
            "SharedMarks": {"race", "history"}, "SharedInProgress": {"history"},
            "SharedError": {"race", "history"}, "HideRestore": {"race", "history", "input"},
-           "MemoRootUnsync": {"race"}}
+           "MemoRootUnsync": {"race"}, "ReleaseOutsideLock": {"race"}}
 # kinds whose defects are steady-state (scratch state that must be per call): every goroutine repeats its calls
 STEADY = {"chain", "compat2", "disabled", "oneof"}
 NS = [2, 4, 8, 16]
@@ -73,7 +73,7 @@ def make_cases(ctx, scheds, thorough):
             plan = [(cks[idx % len(cks)], NS[idx % 4])]
         glob = origin == "global"
         for ck, n in plan:
-            steady = kind in STEADY
+            steady = kind in STEADY or (kind == "steps" and origin == "plain")   # distinct runs, many per trial
             cases.append(dict(mode="race", kind=kind, ckind=ck, origin=origin, shared=shared, progs=progs, n=n, seed=ctx.seed,
                               iters=((300 if thorough else 150) if steady else 1),
                               trials=(3 if glob else ((4 if thorough else 3) if steady else (40 if thorough else 25))),
@@ -82,7 +82,7 @@ def make_cases(ctx, scheds, thorough):
     return cases
 
 
-PER_CALL = {"oneof": 0.0006, "disabled": 0.0005, "chain": 0.0003, "compat2": 0.0004}   # steady-state kinds, seconds
+PER_CALL = {"oneof": 0.0006, "disabled": 0.0005, "chain": 0.0003, "compat2": 0.0004, "steps": 0.0004}   # steady-state kinds, seconds
 
 
 def case_cost(c):
